@@ -1094,7 +1094,10 @@ func c13Run(t *testing.T, ops []c13Op, emit bool) *c13Result {
 				continue
 			}
 			for _, le := range snap.Logs[p.A] {
-				if (le.Rm || le.Del) && le.Seq < added && le.Seq > since.SafeSequence() {
+				// (an entry AT the grant sequence is not dropped, but it only survives if the page is not cut before it
+				// and the channel is not lost again before the next page: same root cause, the earlier loss of the
+				// channel is never processed because the channel is accessible again)
+				if (le.Rm || le.Del) && le.Seq <= added && le.Seq > since.SafeSequence() {
 					if _, held := client[le.Doc]; held {
 						skippedRemoval[le.Doc] = i
 					}
@@ -1259,7 +1262,7 @@ func c13Run(t *testing.T, ops []c13Op, emit bool) *c13Result {
 					why, cause := "", ""
 					if at, ok := skippedRemoval[d]; ok {
 						why = "/backfill-skips-removal"
-						cause = fmt.Sprintf(" [the request at op %d back-filled a re-granted channel and dropped the removal / tombstone entry of d%d, which the client held]", at, d)
+						cause = fmt.Sprintf(" [the request at op %d back-filled a re-granted channel; the removal / tombstone entry of d%d, which the client held, lies at or before the grant and was dropped by the back-fill (or, at the grant sequence, cut off and never resumed); the earlier loss of the channel is not treated as a revocation because the channel is accessible again]", at, d)
 					}
 					// a deleted role that is still among the user's roles is ignored by CollectionChannelGrantedPeriods: no
 					// period for its channels, so documents changed after the client's position are not revoked
